@@ -63,6 +63,7 @@ namespace sim
   Stats run_end();
   std::string stats_json(const Stats& s);
   const Options& options();
+  uint64_t run_serial();         // increments with every run_begin of this process
 
   // ---- inside tasks --------------------------------------------------------------------------------
   bool active();                 // simulation running and calling thread is a managed task
